@@ -1,4 +1,5 @@
 """Canonical form and comparators for BlackbirdProgram contents."""
+import math
 import numbers
 
 import numpy as np
@@ -131,6 +132,20 @@ def _num_kind(x):
     return None
 
 
+ZERO_SIGN = [False]
+
+
+class strict_zero_sign:
+    """Within this block real floats (scalars, list elements, float arrays) must also agree in the sign of a zero:
+    -0.0 and 0.0 are different numbers for "come back exactly" (complex parts are exempt)."""
+    def __enter__(self):
+        self.old = ZERO_SIGN[0]
+        ZERO_SIGN[0] = True
+
+    def __exit__(self, *a):
+        ZERO_SIGN[0] = self.old
+
+
 def values_equal(a, b, path, out, sym_rtol=1e-9):
     """Append Mismatch objects to out for differences between two delivered values."""
     ka, kb = VC.kind_of(a), VC.kind_of(b)
@@ -204,6 +219,8 @@ def values_equal(a, b, path, out, sym_rtol=1e-9):
             return
         if not np.array_equal(a, b):
             out.append(Mismatch("%s:array-elements" % path, "%r vs %r" % (a.tolist(), b.tolist())))
+        elif ZERO_SIGN[0] and a.dtype.kind == "f" and not np.array_equal(np.signbit(a), np.signbit(b)):
+            out.append(Mismatch("%s:array-elements-zero-sign" % path, "%r vs %r" % (a.tolist(), b.tolist())))
         return
     if isinstance(a, (list, tuple)) or isinstance(b, (list, tuple)):
         if not (isinstance(a, (list, tuple)) and isinstance(b, (list, tuple))):
@@ -224,6 +241,8 @@ def values_equal(a, b, path, out, sym_rtol=1e-9):
         same = False
     if not same:
         out.append(Mismatch("%s:value-%s" % (path, ka), "%r vs %r" % (a, b)))
+    elif ZERO_SIGN[0] and ka == "real" and a == 0 and math.copysign(1.0, float(a)) != math.copysign(1.0, float(b)):
+        out.append(Mismatch("%s:value-real-zero-sign" % path, "%r vs %r" % (a, b)))
 
 
 def compare_programs(a, b, what=("name", "version", "target", "type", "parameters", "ops")):
